@@ -1,6 +1,7 @@
 /-
 C16 — live views of response headers never drift from the header text.
-Property theorems only (helper lemmas: Lemmas/Views.lean; model: Model/Views.lean).
+Property theorems only (helper lemmas: Lemmas/Views.lean, Lemmas/ViewsCodec.lean; model:
+Model/Views.lean on top of the C06 codecs of Model/Http.lean).
 
 Every view family is an instance of `C16L.Family`: getter (`load`), `on_update` writer (`write`),
 view mutators reporting whether they notified. The coherence statement has the two parts of the
@@ -11,11 +12,12 @@ property:
        held view;
   (ii) an effective view mutation rewrites the header from the new view: its text is the view's
        serialisation, or the header is absent when the view became empty.
-The side conditions of a history (`okHist`) are decidable and explicit: the views that are written
-back round-trip through the header codec (the C06 property), fetched HeaderSet views satisfy
-`HeaderSet.Inv` and item assignments do not create case-duplicates (F08b, F08c).
+The side conditions of a history (`okHistGood`) are explicit *domain* predicates on the views that
+are written back (`setGood`, `dictGood`, `cspGood`, `crGood`, `authGood`, `mpGood`: token keys,
+values without CR/LF, valid ranges, …); the codec round trip itself is no longer assumed — it is
+the C06 theorem for that codec. Each restriction is shown necessary by a witness (`*_needs_*`).
 -/
-import WzVerif.Lemmas.Views
+import WzVerif.Lemmas.ViewsCodec
 namespace Wz.Props.C16
 open Wz Hdr Views Wz.C16L
 
@@ -26,7 +28,7 @@ def setFamily (name : Str) : Family HS.St HS.Op :=
    fun c op => ((HS.step c op).st, (HS.step c op).notified)⟩
 
 def ccFamily : Family ODict CC.Op :=
-  ⟨CC.load, id, CC.write, fun d op => ((CC.step d op).st, (CC.step d op).notified)⟩
+  ⟨CC.load, id, fun h d => (CC.write h d).1, fun d op => ((CC.step d op).st, (CC.step d op).notified)⟩
 
 def cspFamily (name writeName : Str) : Family CSP.St CSP.Op :=
   ⟨fun h => CSP.load h name, id, fun h d => CSP.write h name writeName d,
@@ -37,169 +39,123 @@ def crFamily : Family CR.St CR.Op :=
    fun c op => ((CR.step c op).st, (CR.step c op).notified)⟩
 
 def authFamily : Family Auth.St Auth.Op :=
-  ⟨Auth.load, id, Auth.write, fun c op => ((Auth.step c op).st, (Auth.step c op).notified)⟩
+  ⟨Auth.load, id, fun h c => (Auth.write h c).1, fun c op => ((Auth.step c op).st, (Auth.step c op).notified)⟩
 
 def mpFamily : Family MP.St (DOp Str) :=
   ⟨MP.load, id, fun h d => (MP.write h d).1, fun d op => ((dstep d op).st, (dstep d op).notified)⟩
-
-/-- equality of HeaderSet views: same member list, same lookup set (a Python set: order-free) -/
-def hsEq (a b : HS.St) : Bool :=
-  decide (a.headers = b.headers) && a.set.all (b.set.contains ·) && b.set.all (a.set.contains ·)
 
 def anyView {σ : Type} : σ → Bool := fun _ => true
 def anyOp {σ ο : Type} : σ → ο → Bool := fun _ _ => true
 
 /-! ## (i) coherence along every history -/
 
-/-- Vary / Allow / Content-Language: for every history, under `HeaderSet.Inv` of the fetched views
-and `hsOk` item assignments, the held HeaderSet view stays equal to the re-read property whenever it
-is in sync; and the invariant is kept. -/
+/-- Vary / Allow / Content-Language, members of ANY text (Unicode, quotes, commas, …) without
+CR/LF: for every history, under `HeaderSet.Inv` of the fetched views and non-colliding item
+assignments (`hsOk`; F08b / F08c otherwise), the held view equals the re-read property whenever it
+is in sync, and the invariant is kept. The codec round trip is `parseSet_dump` (C06). -/
 theorem view_coherent_set (name : Str) (evs : List (Ev HS.Op)) (s : S HS.St)
     (hI : HS.Inv s.v) (hs : s.synced = true → hsEq (SetView.load s.h name) s.v = true)
-    (hok : okHist (setFamily name) hsEq (fun c => decide (HS.Inv c)) C08L.hsOk s evs = true) :
+    (hok : okHistGood (setFamily name) hsEq (fun c => decide (HS.Inv c)) C08L.hsOk (fun _ c => setGood c) s evs = true) :
     HS.Inv (run (setFamily name) s evs).v ∧
     ((run (setFamily name) s evs).synced = true →
       hsEq (SetView.load (run (setFamily name) s evs).h name) (run (setFamily name) s evs).v = true) := by
-  have := coherent (setFamily name) hsEq (fun c => decide (HS.Inv c)) C08L.hsOk
-    (fun v op hv ha => by
-      simp only [decide_eq_true_eq] at hv ⊢
-      exact C08L.hs_inv_preserved v hv op ha)
+  have hstep : ∀ v op, decide (HS.Inv v) = true → C08L.hsOk v op = true →
+      decide (HS.Inv ((setFamily name).vstep v op).1) = true := by
+    intro v op hv ha
+    simp only [decide_eq_true_eq] at hv ⊢
+    exact C08L.hs_inv_preserved v hv op ha
+  have hok' := okHist_of_good (setFamily name) hsEq (fun c => decide (HS.Inv c)) C08L.hsOk (fun _ c => setGood c)
+    hstep (fun h v hv hg => set_roundtrip h name v (by simpa using hv) hg) evs s (by simpa using hI) hok
+  have := coherent (setFamily name) hsEq (fun c => decide (HS.Inv c)) C08L.hsOk hstep
     (fun v op hv _ hq => by
       simp only [decide_eq_true_eq] at hv
       exact hs_quiet v hv op hq)
-    evs s (by simpa using hI) hs hok
+    evs s (by simpa using hI) hs hok'
   exact ⟨by simpa using this.1, this.2⟩
 
-example : okHist (setFamily "Vary".toList) hsEq (fun c => decide (HS.Inv c)) C08L.hsOk
+example : okHistGood (setFamily "Vary".toList) hsEq (fun c => decide (HS.Inv c)) C08L.hsOk (fun _ c => setGood c)
     ⟨[("Vary".toList, "Cookie".toList)], SetView.load [("Vary".toList, "Cookie".toList)] "Vary".toList, true⟩
     [.view (.remove "cookie".toList), .view (.add "Accept".toList), .edit (fun h => (Hdr.add h "X".toList "1".toList).1),
-     .view (.update ["a b".toList, "ACCEPT".toList]), .refetch, .view (.setitem 0 "Origin".toList), .view .clear] = true := by
+     .view (.update ["a, \"b\\".toList, "ACCEPT".toList, "é ü".toList]), .refetch, .view (.setitem 0 "Origin".toList),
+     .view (.discard "x-foo".toList), .view .clear] = true := by
   decide +kernel
 
-/-- every member of the view is a non-empty word of token characters -/
-def tokenView (c : HS.St) : Bool := c.headers.all tokenWord
-
-/-- a HeaderSet view whose members are token words re-reads equal after it wrote itself back -/
-theorem set_view_roundtrip_tokens (h : HList) (name : Str) (c : HS.St) (hI : HS.Inv c)
-    (ht : tokenView c = true) : hsEq (SetView.load (SetView.write h name c) name) c = true := by
-  have hl : ∀ w ∈ c.headers, tokenWord w = true := List.all_eq_true.1 ht
-  have hall : ∀ x ∈ c.headers, x.all tokCh = true := by
-    intro x hx; have := hl x hx; simp only [tokenWord, Bool.and_eq_true] at this; exact this.2
-  have hsets : ∀ (s : List Str), (∀ x, x ∈ s ↔ x ∈ c.set) →
-      (s.all (c.set.contains ·) && c.set.all (s.contains ·)) = true := by
-    intro s hs
-    simp only [Bool.and_eq_true, List.all_eq_true, List.contains_iff_mem]
-    exact ⟨fun x hx => (hs x).1 hx, fun x hx => (hs x).2 hx⟩
-  cases he : c.set.isEmpty with
-  | true =>
-    have hset : c.set = [] := by simpa using he
-    have hh : c.headers = [] := by
-      cases hc : c.headers with
-      | nil => rfl
-      | cons w r =>
-        have := (hI.2.2 (lower w)).2 (by rw [hc]; simp)
-        rw [hset] at this; cases this
-    have : SetView.load (SetView.write h name c) name = HS.construct [] := by
-      simp only [SetView.write, he, if_true, SetView.load, absent_getKey]
-    rw [this]
-    simp [hsEq, HS.construct, hh, hset]
-  | false =>
-    have hne : c.headers ≠ [] := by
-      intro e
-      have : c.set = [] := by
-        cases hs : c.set with
-        | nil => rfl
-        | cons x t =>
-          have := (hI.2.2 x).1 (by rw [hs]; exact List.mem_cons_self)
-          rw [e] at this; cases this
-      simp [this] at he
-    have hd := dump_tokens c.headers hl
-    have hnl : hasNL (SetView.dump c) = false := by
-      unfold SetView.dump; rw [hd]; exact intercalate_noNL _ hall
-    have hnonempty : (SetView.dump c).isEmpty = false := by
-      unfold SetView.dump; rw [hd]
-      cases hc : c.headers with
-      | nil => exact absurd hc hne
-      | cons w r =>
-        have hw : w ≠ [] := by
-          intro e; have := hl w (by rw [hc]; exact List.mem_cons_self); subst e; simp [tokenWord] at this
-        cases w with
-        | nil => exact absurd rfl hw
-        | cons ch t => cases r <;> simp [List.intercalate, List.intersperse]
-    have : SetView.load (SetView.write h name c) name = HS.construct c.headers := by
-      simp only [SetView.write, he, Bool.false_eq_true, if_false, SetView.load, set_getKey h name _ hnl, hnonempty]
-      unfold SetView.dump
-      rw [parseList_dumpList c.headers hl hne]
-    rw [this]
-    have hmem := (C08L.foldl_setAdd c.headers [] (by simp)).2
-    simp only [hsEq, HS.construct, decide_true, Bool.true_and]
-    apply hsets
-    intro x
-    rw [hmem x, hI.2.2 x]
-    simp
-
-/-- Vary / Allow / Content-Language with token-valued members (field names, methods, language
-tags): coherence along EVERY history with no codec hypothesis — the round trip is proved
-(`parseList_dumpList`). Side conditions left: fetched views satisfy `HeaderSet.Inv`, item
-assignments do not collide (F08b/F08c), written views have token members. -/
-theorem view_coherent_set_tokens (name : Str) (evs : List (Ev HS.Op)) (s : S HS.St)
-    (hI : HS.Inv s.v) (hs : s.synced = true → hsEq (SetView.load s.h name) s.v = true)
-    (hok : okHistGood (setFamily name) hsEq (fun c => decide (HS.Inv c)) C08L.hsOk tokenView s evs = true) :
-    HS.Inv (run (setFamily name) s evs).v ∧
-    ((run (setFamily name) s evs).synced = true →
-      hsEq (SetView.load (run (setFamily name) s evs).h name) (run (setFamily name) s evs).v = true) := by
-  apply view_coherent_set name evs s hI hs
-  apply okHist_of_good (setFamily name) hsEq (fun c => decide (HS.Inv c)) C08L.hsOk tokenView _ _ evs s
-    (by simpa using hI) hok
-  · intro v op hv ha
-    simp only [decide_eq_true_eq] at hv ⊢
-    exact C08L.hs_inv_preserved v hv op ha
-  · intro h v hv hg
-    simp only [decide_eq_true_eq] at hv
-    exact set_view_roundtrip_tokens h name v hv hg
-
-example : okHistGood (setFamily "Vary".toList) hsEq (fun c => decide (HS.Inv c)) C08L.hsOk tokenView
-    ⟨[], HS.construct [], true⟩
-    [.view (.add "Cookie".toList), .view (.add "Accept-Encoding".toList), .view (.remove "cookie".toList),
-     .edit (fun h => (Hdr.set h "Vary".toList "Origin, X-Foo".toList).1), .refetch,
-     .view (.setitem 0 "User-Agent".toList), .view (.discard "x-foo".toList), .view .clear] = true := by
+/-- the restriction is needed: a member with a line break is refused by `Headers.set`, the header
+keeps its old text and the view drifts -/
+theorem set_needs_no_newline :
+    hsEq (SetView.load (SetView.write [] "Vary".toList (HS.construct ["a\nb".toList])) "Vary".toList)
+      (HS.construct ["a\nb".toList]) = false := by
   decide +kernel
 
-/-- cache_control: every typed directive assignment / deletion and every dict mutator -/
+/-- cache_control: every typed directive assignment / deletion and every dict mutator; written
+views have distinct non-empty token keys without `*` and values without CR/LF (`dictGood`).
+Round trip: `parseDict_dump` (C06). -/
 theorem view_coherent_cc (evs : List (Ev CC.Op)) (s : S ODict)
-    (hs : s.synced = true → CC.load s.h = s.v) (hok : okHist ccFamily eqB anyView anyOp s evs = true) :
-    (run ccFamily s evs).synced = true → CC.load (run ccFamily s evs).h = (run ccFamily s evs).v :=
-  fun hsy => (eqB_iff _ _).1 ((coherent ccFamily eqB anyView anyOp (fun _ _ _ _ => rfl) (fun v op _ _ hq => cc_quiet v op hq) evs s rfl (fun h => (eqB_iff _ _).2 (hs h)) hok).2 hsy)
+    (hs : s.synced = true → CC.load s.h = s.v)
+    (hok : okHistGood ccFamily eqB anyView anyOp (fun _ d => dictGood d) s evs = true) :
+    (run ccFamily s evs).synced = true → CC.load (run ccFamily s evs).h = (run ccFamily s evs).v := by
+  have hok' := okHist_of_good ccFamily eqB anyView anyOp (fun _ d => dictGood d) (fun _ _ _ _ => rfl)
+    (fun h v _ hg => (eqB_iff _ _).2 (cc_roundtrip h v hg)) evs s rfl hok
+  exact fun hsy => (eqB_iff _ _).1 ((coherent ccFamily eqB anyView anyOp (fun _ _ _ _ => rfl)
+    (fun v op _ _ hq => cc_quiet v op hq) evs s rfl (fun h => (eqB_iff _ _).2 (hs h)) hok').2 hsy)
 
-example : okHist ccFamily eqB anyView anyOp ⟨[], CC.load [], true⟩
+example : okHistGood ccFamily eqB anyView anyOp (fun _ d => dictGood d) ⟨[], CC.load [], true⟩
     [.view (.attr "max-age".toList .int (.int 3600)), .view (.attr "no-store".toList .bool (.bool true)),
-     .view (.attr "private".toList .str (.str "a b".toList)), .view (.delattr "no-store".toList),
+     .view (.attr "private".toList .str (.str "a, \"b\" é".toList)), .view (.delattr "no-store".toList),
      .edit (fun h => (Hdr.set h "Cache-Control".toList "public".toList).1), .refetch,
      .view (.dict (.pop "public".toList none))] = true := by
   decide +kernel
 
-/-- content_security_policy / content_security_policy_report_only -/
-theorem view_coherent_csp (name writeName : Str) (evs : List (Ev CSP.Op)) (s : S CSP.St)
-    (hs : s.synced = true → CSP.load s.h name = s.v)
-    (hok : okHist (cspFamily name writeName) eqB anyView anyOp s evs = true) :
-    (run (cspFamily name writeName) s evs).synced = true →
-      CSP.load (run (cspFamily name writeName) s evs).h name = (run (cspFamily name writeName) s evs).v :=
-  fun hsy => (eqB_iff _ _).1 ((coherent (cspFamily name writeName) eqB anyView anyOp (fun _ _ _ _ => rfl)
-    (fun v op _ _ hq => csp_quiet v op hq) evs s rfl (fun h => (eqB_iff _ _).2 (hs h)) hok).2 hsy)
+/-- each restriction of `dictGood` is needed: a key that is not a token, a key ending in `*`, an
+empty key (`dump_header` raises IndexError), a value with a line break -/
+theorem cc_needs_domain :
+    CC.load (CC.write [] [("a,b".toList, none)]).1 ≠ [("a,b".toList, none)] ∧
+    CC.load (CC.write [] [("k*".toList, some "v".toList)]).1 ≠ [("k*".toList, some "v".toList)] ∧
+    (CC.write [] [([], some "v".toList)]).2 = .error "IndexError" ∧
+    CC.load (CC.write [] [("k".toList, some "a\nb".toList)]).1 ≠ [("k".toList, some "a\nb".toList)] := by
+  refine ⟨by decide +kernel, by decide +kernel, by rfl, by decide +kernel⟩
 
-example : okHist (cspFamily "content-security-policy".toList "Content-Security-Policy".toList) eqB anyView anyOp
-    ⟨[], [], true⟩
+/-- content_security_policy / content_security_policy_report_only; written views are in the domain
+of `csp_roundtrip` (C06): stripped directives without space / `;`, stripped non-empty values without
+`;`, no CR/LF -/
+theorem view_coherent_csp (name writeName : Str) (hk : lower name = lower writeName)
+    (evs : List (Ev CSP.Op)) (s : S CSP.St) (hs : s.synced = true → CSP.load s.h name = s.v)
+    (hok : okHistGood (cspFamily name writeName) eqB anyView anyOp (fun _ d => cspGood d) s evs = true) :
+    (run (cspFamily name writeName) s evs).synced = true →
+      CSP.load (run (cspFamily name writeName) s evs).h name = (run (cspFamily name writeName) s evs).v := by
+  have hok' := okHist_of_good (cspFamily name writeName) eqB anyView anyOp (fun _ d => cspGood d) (fun _ _ _ _ => rfl)
+    (fun h v _ hg => (eqB_iff _ _).2 (C16L.csp_roundtrip h name writeName hk v hg)) evs s rfl hok
+  exact fun hsy => (eqB_iff _ _).1 ((coherent (cspFamily name writeName) eqB anyView anyOp (fun _ _ _ _ => rfl)
+    (fun v op _ _ hq => csp_quiet v op hq) evs s rfl (fun h => (eqB_iff _ _).2 (hs h)) hok').2 hsy)
+
+example : lower "content-security-policy-report-only".toList = lower "Content-Security-policy-report-only".toList := by
+  decide
+
+example : okHistGood (cspFamily "content-security-policy".toList "Content-Security-Policy".toList) eqB anyView anyOp
+    (fun _ d => cspGood d) ⟨[], [], true⟩
     [.view (.attr "default-src".toList (some "'self'".toList)), .view (.attr "img-src".toList (some "* data:".toList)),
      .view (.delattr "default-src".toList), .refetch, .view (.dict .clear)] = true := by
   decide +kernel
 
-/-- content_range (reading the property rewrites the header: `refetchH`) -/
-theorem view_coherent_cr (evs : List (Ev CR.Op)) (s : S CR.St)
-    (hs : s.synced = true → CR.load s.h = s.v) (hok : okHist crFamily eqB anyView anyOp s evs = true) :
-    (run crFamily s evs).synced = true → CR.load (run crFamily s evs).h = (run crFamily s evs).v :=
-  fun hsy => (eqB_iff _ _).1 ((coherent crFamily eqB anyView anyOp (fun _ _ _ _ => rfl) (fun v op _ _ hq => cr_quiet v op hq) evs s rfl (fun h => (eqB_iff _ _).2 (hs h)) hok).2 hsy)
+/-- the restrictions of `cspGood` are needed: `;` in a value, a space in a directive, an empty value -/
+theorem csp_needs_domain :
+    CSP.load (CSP.write [] "csp".toList "csp".toList [("a".toList, "x; y".toList)]) "csp".toList ≠ [("a".toList, "x; y".toList)] ∧
+    CSP.load (CSP.write [] "csp".toList "csp".toList [("a b".toList, "x".toList)]) "csp".toList ≠ [("a b".toList, "x".toList)] ∧
+    CSP.load (CSP.write [] "csp".toList "csp".toList [("sandbox".toList, [])]) "csp".toList ≠ [("sandbox".toList, [])] := by
+  decide +kernel
 
-example : okHist crFamily eqB anyView anyOp ⟨[], CR.empty, true⟩
+/-- content_range (reading the property rewrites the header: `refetchH`); written views are unset
+or valid for `is_byte_range_valid` with units free of white space (`contentRange_roundtrip`, C06) -/
+theorem view_coherent_cr (evs : List (Ev CR.Op)) (s : S CR.St)
+    (hs : s.synced = true → CR.load s.h = s.v)
+    (hok : okHistGood crFamily eqB anyView anyOp (fun _ c => crGood c) s evs = true) :
+    (run crFamily s evs).synced = true → CR.load (run crFamily s evs).h = (run crFamily s evs).v := by
+  have hok' := okHist_of_good crFamily eqB anyView anyOp (fun _ c => crGood c) (fun _ _ _ _ => rfl)
+    (fun h v _ hg => (eqB_iff _ _).2 (cr_roundtrip h v hg)) evs s rfl hok
+  exact fun hsy => (eqB_iff _ _).1 ((coherent crFamily eqB anyView anyOp (fun _ _ _ _ => rfl)
+    (fun v op _ _ hq => cr_quiet v op hq) evs s rfl (fun h => (eqB_iff _ _).2 (hs h)) hok').2 hsy)
+
+example : okHistGood crFamily eqB anyView anyOp (fun _ c => crGood c) ⟨[], CR.empty, true⟩
     [.view (.set (some 0) (some 10) (some 100) (some "bytes".toList)), .view (.setLength none), .refetch,
      .view (.set (some 5) (some 2) none (some "bytes".toList)), .view .unset,
      .view (.set none none (some 0) (some "bytes".toList)), .refetch, .view (.setLength (some 7)),
@@ -217,33 +173,86 @@ theorem cr_length_zero :
     CR.load (CR.write [] ⟨some "bytes".toList, none, none, some 0⟩).1 = ⟨some "bytes".toList, none, none, some 0⟩ ∧
     (CR.step ⟨some "bytes".toList, none, none, some 7⟩ (.setLength (some 0))).st = ⟨some "bytes".toList, none, none, some 0⟩ ∧
     (CR.step CR.empty (.set none none (some 0) (some "bytes".toList))).st = ⟨some "bytes".toList, none, none, some 0⟩ ∧
-    CR.valid (some 0) (some 1) (some 0) = false := by
+    CR.valid (some 0) (some 1) (some 0) = false ∧
+    crGood ⟨some "bytes".toList, none, none, some 0⟩ = true := by
   decide +kernel
 
-/-- www_authenticate (as repaired: `type`, `token`, `parameters` reach their setters) -/
+/-- the restrictions of `crGood` are needed: an invalid combination (F16d: `stop` without `start`),
+units containing white space, an unset range that still carries a length -/
+theorem cr_needs_domain :
+    CR.load (CR.write [] ⟨some "bytes".toList, none, some 10, none⟩).1 ≠ ⟨some "bytes".toList, none, some 10, none⟩ ∧
+    CR.load (CR.write [] ⟨some "my units".toList, none, none, none⟩).1 ≠ ⟨some "my units".toList, none, none, none⟩ ∧
+    CR.load (CR.write [] ⟨none, none, none, some 5⟩).1 ≠ ⟨none, none, none, some 5⟩ := by
+  decide +kernel
+
+/-- www_authenticate (as repaired: `type`, `token`, `parameters` reach their setters, `type` is
+lower-cased); written views are in `authGood`: a token challenge without parameters or a parameter
+challenge without token, scheme other than `digest` for parameters (round trips: the C06 lemmas
+`authRest_token` / `authRest_params` behind `token_auth_roundtrip` / `www_param_roundtrip`; unlike
+C06's `SchemeOk` the scheme `basic` is allowed here — it is only special for `Authorization`) -/
 theorem view_coherent_auth (evs : List (Ev Auth.Op)) (s : S Auth.St)
-    (hs : s.synced = true → Auth.load s.h = s.v) (hok : okHist authFamily eqB anyView anyOp s evs = true) :
-    (run authFamily s evs).synced = true → Auth.load (run authFamily s evs).h = (run authFamily s evs).v :=
-  fun hsy => (eqB_iff _ _).1 ((coherent authFamily eqB anyView anyOp (fun _ _ _ _ => rfl) (fun v op _ _ hq => auth_quiet v op hq) evs s rfl (fun h => (eqB_iff _ _).2 (hs h)) hok).2 hsy)
+    (hs : s.synced = true → Auth.load s.h = s.v)
+    (hok : okHistGood authFamily eqB anyView anyOp (fun _ c => authGood c) s evs = true) :
+    (run authFamily s evs).synced = true → Auth.load (run authFamily s evs).h = (run authFamily s evs).v := by
+  have hok' := okHist_of_good authFamily eqB anyView anyOp (fun _ c => authGood c) (fun _ _ _ _ => rfl)
+    (fun h v _ hg => (eqB_iff _ _).2 (auth_roundtrip h v hg)) evs s rfl hok
+  exact fun hsy => (eqB_iff _ _).1 ((coherent authFamily eqB anyView anyOp (fun _ _ _ _ => rfl)
+    (fun v op _ _ hq => auth_quiet v op hq) evs s rfl (fun h => (eqB_iff _ _).2 (hs h)) hok').2 hsy)
 
-example : okHist authFamily eqB anyView anyOp ⟨[], Auth.default, true⟩
-    [.view (.setitem "realm".toList (some "login area".toList)), .view (.setType "digest".toList),
-     .view (.setitem "nonce".toList (some "abc".toList)), .view (.delitem "nonce".toList), .refetch,
+example : okHistGood authFamily eqB anyView anyOp (fun _ c => authGood c) ⟨[], Auth.default, true⟩
+    [.view (.setitem "realm".toList (some "login area".toList)), .view (.setType "Negotiate".toList),
+     .view (.setitem "charset".toList (some "UTF-8".toList)), .view (.delitem "charset".toList), .refetch,
      .edit (fun h => (Hdr.set h "WWW-Authenticate".toList "Bearer t0k".toList).1), .refetch,
-     .view (.setToken (some "other".toList)), .view (.setType "token68".toList)] = true := by
+     .view (.setToken (some "other==".toList)), .view (.setType "token68".toList)] = true := by
   decide +kernel
 
-/-- mimetype_params -/
-theorem view_coherent_mp (evs : List (Ev (DOp Str))) (s : S MP.St)
-    (hs : s.synced = true → MP.load s.h = s.v) (hok : okHist mpFamily eqB anyView anyOp s evs = true) :
-    (run mpFamily s evs).synced = true → MP.load (run mpFamily s evs).h = (run mpFamily s evs).v :=
-  fun hsy => (eqB_iff _ _).1 ((coherent mpFamily eqB anyView anyOp (fun _ _ _ _ => rfl) (fun v op _ _ hq => dstep_quiet v op hq) evs s rfl (fun h => (eqB_iff _ _).2 (hs h)) hok).2 hsy)
+/-- the restrictions of `authGood` are needed: F16b (neither token nor parameters), F16c (token and
+parameters), a token with an inner `=`, a scheme containing a space -/
+theorem auth_needs_domain :
+    Auth.load (Auth.write [] Auth.default).1 ≠ Auth.default ∧
+    Auth.load (Auth.write [] ⟨"basic".toList, [("realm".toList, some "x".toList)], some "xyz".toList⟩).1
+      ≠ ⟨"basic".toList, [("realm".toList, some "x".toList)], some "xyz".toList⟩ ∧
+    Auth.load (Auth.write [] ⟨"bearer".toList, [], some "a=b".toList⟩).1 ≠ ⟨"bearer".toList, [], some "a=b".toList⟩ ∧
+    Auth.load (Auth.write [] ⟨"my scheme".toList, [], some "t".toList⟩).1 ≠ ⟨"my scheme".toList, [], some "t".toList⟩ := by
+  decide +kernel
 
-example : okHist mpFamily eqB anyView anyOp
+/-- F16b: the full statement "every written view re-reads equal" is false for the WWW-Authenticate
+view with neither token nor parameters: it is written as `Basic ` and re-read with token `""`. -/
+theorem auth_roundtrip_full_false : ¬ (∀ (h : HList) (c : Auth.St), Auth.load (Auth.write h c).1 = c) := by
+  intro h
+  exact absurd (h [] Auth.default) auth_needs_domain.1
+
+/-- ... concretely `Response().www_authenticate.x = None` creates the header for an empty view -/
+theorem auth_empty_view_header :
+    (next authFamily ⟨[], Auth.default, true⟩ (.view (.setitem "x".toList none))).h
+      = [("WWW-Authenticate".toList, "Basic ".toList)] := by
+  decide +kernel
+
+/-- mimetype_params; the Content-Type has a primary value and the written parameters are in the
+domain of `parseOptions_dump` (C06): distinct lower-case token names without `*`, values without the
+literal `%22` and without CR/LF (`mpGood`, which also looks at the current headers) -/
+theorem view_coherent_mp (evs : List (Ev (DOp Str))) (s : S MP.St)
+    (hs : s.synced = true → MP.load s.h = s.v)
+    (hok : okHistGood mpFamily eqB anyView anyOp mpGood s evs = true) :
+    (run mpFamily s evs).synced = true → MP.load (run mpFamily s evs).h = (run mpFamily s evs).v := by
+  have hok' := okHist_of_good mpFamily eqB anyView anyOp mpGood (fun _ _ _ _ => rfl)
+    (fun h v _ hg => (eqB_iff _ _).2 (mp_roundtrip h v hg)) evs s rfl hok
+  exact fun hsy => (eqB_iff _ _).1 ((coherent mpFamily eqB anyView anyOp (fun _ _ _ _ => rfl)
+    (fun v op _ _ hq => dstep_quiet v op hq) evs s rfl (fun h => (eqB_iff _ _).2 (hs h)) hok').2 hsy)
+
+example : okHistGood mpFamily eqB anyView anyOp mpGood
     ⟨[("Content-Type".toList, "text/html; charset=utf-8".toList)],
      MP.load [("Content-Type".toList, "text/html; charset=utf-8".toList)], true⟩
-    [.view (.setitem "charset".toList "latin-1".toList), .view (.setitem "boundary".toList "a b".toList),
+    [.view (.setitem "charset".toList "latin-1".toList), .view (.setitem "boundary".toList "a \"b\"; c".toList),
      .view (.pop "charset".toList none), .refetch, .view .clear] = true := by
+  decide +kernel
+
+/-- the restrictions of `mpGood` are needed: F16f (no Content-Type to carry the parameters), an
+upper-case parameter name (the parser lower-cases), a value containing the literal `%22` -/
+theorem mp_needs_domain :
+    MP.load (MP.write [] [("charset".toList, "utf-8".toList)]).1 ≠ [("charset".toList, "utf-8".toList)] ∧
+    MP.load (MP.write [("Content-Type".toList, "a/b".toList)] [("Name".toList, "v".toList)]).1 ≠ [("Name".toList, "v".toList)] ∧
+    MP.load (MP.write [("Content-Type".toList, "a/b".toList)] [("n".toList, "x %22y".toList)]).1 ≠ [("n".toList, "x %22y".toList)] := by
   decide +kernel
 
 /-! ## (ii) an effective mutation rewrites the header from the view -/
@@ -288,99 +297,77 @@ theorem effective_mutation_notifies :
 single line `to_header()` -/
 theorem view_text_set (h : HList) (name : Str) (c : HS.St) :
     (c.set.isEmpty = true → getlist (SetView.write h name c) name = []) ∧
-    (c.set.isEmpty = false → hasNL (SetView.dump c) = false →
+    (c.set.isEmpty = false → setGood c = true →
       getlist (SetView.write h name c) name = [SetView.dump c]) := by
   constructor
   · intro he; simp only [SetView.write, he, if_true]; exact absent_pattern h name
   · intro he hv
     simp only [SetView.write, he, Bool.false_eq_true, if_false]
-    exact set_getlist h name _ hv
+    exact set_getlist h name _ (setDump_noNL c hv)
 
-example : hasNL (SetView.dump (HS.construct ["Cookie".toList, "Accept Encoding".toList])) = false := by decide
+example : setGood (HS.construct ["Cookie".toList, "Accept Encoding".toList]) = true := by decide
 
 /-- cache_control -/
 theorem view_text_cc (h : HList) (d : ODict) :
-    (d.isEmpty = true → getlist (CC.write h d) "cache-control".toList = []) ∧
-    (d.isEmpty = false → hasNL (CC.dump d) = false →
-      getlist (CC.write h d) "cache-control".toList = [CC.dump d]) := by
+    (d.isEmpty = true → getlist (CC.write h d).1 "cache-control".toList = []) ∧
+    (d.isEmpty = false → dictGood d = true → ∃ t, CC.dump d = .ok t ∧
+      getlist (CC.write h d).1 "cache-control".toList = [t]) := by
   constructor
   · intro he; simp only [CC.write, he, if_true]; exact absent_pattern h _
-  · intro he hv
-    simp only [CC.write, he, Bool.false_eq_true, if_false]
-    exact set_getlist' h _ _ _ (by decide) hv
+  · intro he hg
+    refine ⟨_, Http.dumpHeaderDict_ok d (dictGood_keys hg), ?_⟩
+    have hd : CC.dump d = .ok (Http.join ", " (d.map Http.dictItemText)) := Http.dumpHeaderDict_ok d (dictGood_keys hg)
+    simp only [CC.write, he, Bool.false_eq_true, if_false, hd, writeText_ok]
+    exact set_getlist' h _ _ _ (by decide) (dictText_noNL d hg)
 
 /-- content_security_policy (`name` is the lower-case header name used for deleting, `writeName`
 the spelling used for setting) -/
 theorem view_text_csp (h : HList) (name writeName : Str) (hk : lower name = lower writeName) (d : CSP.St) :
     (d.isEmpty = true → getlist (CSP.write h name writeName d) name = []) ∧
-    (d.isEmpty = false → hasNL (CSP.dump d) = false →
+    (d.isEmpty = false → cspGood d = true →
       getlist (CSP.write h name writeName d) name = [CSP.dump d]) := by
   constructor
   · intro he; simp only [CSP.write, he, if_true]; exact delKey_getlist h name
   · intro he hv
     simp only [CSP.write, he, Bool.false_eq_true, if_false]
-    exact set_getlist' h _ _ _ hk hv
+    exact set_getlist' h _ _ _ hk (cspText_noNL d hv)
 
-example : lower "content-security-policy-report-only".toList = lower "Content-Security-policy-report-only".toList := by
-  decide
-
-/-- content_range: absent when unset, else the serialisation (when `to_header` succeeds) -/
+/-- content_range: absent when unset, else the serialisation -/
 theorem view_text_cr (h : HList) (c : CR.St) :
     (c.units = none → getlist (CR.write h c).1 "content-range".toList = []) ∧
-    (∀ t, c.units ≠ none → CR.toHeader c = .ok t → hasNL t = false →
-      getlist (CR.write h c).1 "content-range".toList = [t]) := by
+    (Http.CRangeOk c = true →
+      getlist (CR.write h c).1 "content-range".toList = [Http.contentRangeToHeader c]) := by
   constructor
   · intro he; simp only [CR.write, he]; exact delKey_getlist h _
-  · intro t hu ht hv
-    cases hu' : c.units with
-    | none => exact absurd hu' hu
+  · intro hok
+    have hrt := cr_roundtrip h c (by simp [crGood, hok])
+    obtain ⟨units, start, stop, length⟩ := c
+    cases units with
+    | none => simp [Http.CRangeOk] at hok
     | some u =>
-      simp only [CR.write, hu', ht]
-      exact set_getlist' h _ _ _ (by decide) hv
+      have hth : CR.toHeader ⟨some u, start, stop, length⟩ = .ok (Http.contentRangeToHeader ⟨some u, start, stop, length⟩) := by
+        simp only [Http.CRangeOk, Bool.and_eq_true] at hok
+        unfold CR.toHeader
+        cases start <;> cases stop <;> simp only []
+        have := hok.2
+        simp [Http.isByteRangeValid] at this
+      simp only [CR.write, hth, writeText_ok]
+      exact set_getlist' h _ _ _ (by decide) (crText_noNL _ hok)
 
 /-- www_authenticate: the header is always the serialisation of the view -/
-theorem view_text_auth (h : HList) (c : Auth.St) (hv : hasNL (Auth.toHeader c) = false) :
-    getlist (Auth.write h c) "WWW-Authenticate".toList = [Auth.toHeader c] :=
-  set_getlist h _ _ hv
+theorem view_text_auth (h : HList) (c : Auth.St) (t : Str) (ht : Auth.toHeader c = .ok t) (hv : hasNL t = false) :
+    getlist (Auth.write h c).1 "WWW-Authenticate".toList = [t] := by
+  simp only [Auth.write, ht, writeText_ok]
+  exact set_getlist h _ _ hv
 
-/-! ## known findings: views for which the round trip (hence coherence) fails -/
-
-/-- F16b: the full statement "every written view re-reads equal" is false for the WWW-Authenticate
-view with neither token nor parameters: it is written as `Basic ` and re-read with token `""`. -/
-theorem auth_roundtrip_full_false : ¬ (∀ (h : HList) (c : Auth.St), Auth.load (Auth.write h c) = c) := by
-  intro h
-  exact absurd (h [] Auth.default) (by decide +kernel)
-
-/-- ... concretely `Response().www_authenticate.x = None` creates the header for an empty view -/
-theorem auth_empty_view_header :
-    (next authFamily ⟨[], Auth.default, true⟩ (.view (.setitem "x".toList none))).h
-      = [("WWW-Authenticate".toList, "Basic ".toList)] := by
-  decide +kernel
-
-/-- F16c: a view holding a token *and* parameters: the header keeps only the token -/
-theorem auth_token_with_params_drifts :
-    Auth.load (Auth.write [] ⟨"basic".toList, [("realm".toList, some "x".toList)], some "xyz".toList⟩)
-      ≠ ⟨"basic".toList, [("realm".toList, some "x".toList)], some "xyz".toList⟩ := by
-  decide +kernel
-
-/-- F16d: a ContentRange holding `stop` without `start` serialises as `bytes */*` -/
-theorem cr_invalid_state_drifts :
-    CR.load (CR.write [] ⟨some "bytes".toList, none, some 10, none⟩).1 ≠ ⟨some "bytes".toList, none, some 10, none⟩ := by
-  decide +kernel
-
-/-- F16f: parameters written without a mimetype become the whole Content-Type -/
-theorem mp_without_mimetype_drifts :
-    MP.load (MP.write [] [("charset".toList, "utf-8".toList)]).1 ≠ [("charset".toList, "utf-8".toList)] := by
-  decide +kernel
-
-/-- the regressions repaired by bc9f56a / 8064f72 / 78ff821 hold in the model: removing a Vary entry with
-another letter case deletes the header; assigning `token` reaches the setter -/
+/-- the regressions repaired by bc9f56a / 8064f72 / 78ff821 hold in the model: removing a Vary
+entry with another letter case deletes the header; assigning `token` reaches the setter; `type` is
+stored lower-cased and re-reads equal -/
 theorem repaired_regressions :
     (next (setFamily "Vary".toList) ⟨[("Vary".toList, "Cookie".toList)],
         SetView.load [("Vary".toList, "Cookie".toList)] "Vary".toList, true⟩ (.view (.remove "cookie".toList))).h = [] ∧
     (next authFamily ⟨[], Auth.default, true⟩ (.view (.setToken (some "xyz".toList)))).h
       = [("WWW-Authenticate".toList, "Basic xyz".toList)] ∧
-    -- F16e (repaired by 78ff821): `w.type = "Basic"` is stored lower-cased and re-reads equal
     (next authFamily ⟨[], ⟨"bearer".toList, [], some "abc".toList⟩, true⟩ (.view (.setType "Basic".toList))).v.type
       = "basic".toList ∧
     Auth.load (next authFamily ⟨[], ⟨"bearer".toList, [], some "abc".toList⟩, true⟩ (.view (.setType "Basic".toList))).h
